@@ -79,6 +79,16 @@ func (a *AggOracle) processLatestGER(ctx context.Context, blockNumToFetch *uint6
 	// Fetch the latest GER
 	blockNum, gerToInject, err := a.getLastFinalizedGER(ctx, *blockNumToFetch)
 	if err != nil {
+		if errors.Is(err, l1infotreesync.ErrNotFound) {
+			// There is no GER until the sampled block: sample the finalized block again on the
+			// next iteration, otherwise the oracle would wait for this block for ever
+			*blockNumToFetch = 0
+		} else {
+			// The syncer could not answer for the sampled finalized block (typically it has not
+			// processed it yet): keep asking for that same block on the next iterations, so that a
+			// syncer that stays a few blocks behind the (moving) finalized block can catch up with it
+			*blockNumToFetch = blockNum
+		}
 		return err
 	}
 
